@@ -63,7 +63,7 @@ def nd_call(f, b):
 
 def law_call(f, b):
     if is_compact(f):
-        return ''
+        return 'compact_dec_lemmas::accepts_bound(%s, %d);' % (b, W[f['ty']])
     return '<%s as Decode>::law_bound(%s);' % (f['ty'], b)
 
 
@@ -250,6 +250,7 @@ def mel_module(d, src, out, groups, enum):
     out.append('impl%s MaxEncodedLen for %s {' % (gM, ty))
     out.append('    //@fn fam.%s.max_encoded_len :: @family | %s | max_encoded_len' % (name, mel.header))
     out.append("    //@ subre `::core::primitive::usize` `usize` R10")
+    out.append("    //@ subre `<<(\\w+)\\s+as\\s+HasCompact>::Type\\s+as\\s+MaxEncodedLen>` `<Compact<\\1> as MaxEncodedLen>` R6 ?")
     # distinct field types that contribute
     tys = []
     for _, fs in groups:
@@ -400,6 +401,9 @@ def template(src, flags, g):
         uninhabited = d['kind'] == 'enum' and not d['variants']
         wf.append({'id': 'wf.encode_defaults.%s' % d['name'], 'impl': enc.header, 'overrides': overrides, 'ok': bool(overrides) or uninhabited,
                    'definition': family.def_src(d), 'note': 'uninhabited type: no value can be encoded' if uninhabited else ''})
+        if uninhabited:
+            out.append('// %s: uninhabited enum (no variants): every claim about its values is vacuous; Verus rejects empty datatypes, no text generated.' % d['name'])
+            continue
         if not overrides:
             out.append('// %s: derive emitted an Encode impl overriding none of encode_to/using_encoded/encode: the three trait defaults\n'
                        '// are mutually recursive -> obligation wf.encode_defaults.%s FAILS (reported by the driver); no Verus text generated.' % (d['name'], d['name']))
